@@ -439,6 +439,7 @@ func buildPair(res *resT, tree *T, ext map[string]*T, nstab map[string]string, k
 		return nil, inl
 	}
 	p := &pair{orig: top, inl: itop, sites: s.sites}
+	throughHolders(res, s, tree, ext, nstab)
 	if tw := enabledTwin(tree); tw != nil {
 		ws := newSession(tw, ext)
 		pi := sup.Guard(func() {
@@ -460,6 +461,97 @@ func buildPair(res *resT, tree *T, ext map[string]*T, nstab map[string]string, k
 	}
 	p.rebuild(res, s, tree, nstab)
 	return p, inl
+}
+
+type linker interface {
+	ApplyNamespace(objects map[string]*schema.ObjectSchema, namespace string)
+	ValidateReferences() error
+}
+
+// throughHolders links a fresh copy of the tree through every kind of holder that has an ApplyNamespace /
+// ValidateReferences of its own (a step output, a property, a list, a map, an object holding the scope as a
+// property type): the references must end up exactly as when the scope itself is given the namespaces, and
+// the holder's ValidateReferences must agree with the link state.
+func throughHolders(res *resT, ref *session, tree *T, ext map[string]*T, nstab map[string]string) {
+	want := ref.w.observe(ref.refTags)
+	holders := map[string]func(top *schema.ScopeSchema) linker{
+		"step_output": func(top *schema.ScopeSchema) linker { return schema.NewStepOutputSchema(top, nil, false) },
+		"property": func(top *schema.ScopeSchema) linker {
+			return schema.NewPropertySchema(top, nil, false, nil, nil, nil, nil, nil)
+		},
+		"list": func(top *schema.ScopeSchema) linker { return schema.NewListSchema(top, nil, nil) },
+		"map": func(top *schema.ScopeSchema) linker {
+			return schema.NewMapSchema(schema.NewStringSchema(nil, nil, nil), top, nil, nil)
+		},
+		"object": func(top *schema.ScopeSchema) linker {
+			return schema.NewObjectSchema("Holder", map[string]*schema.PropertySchema{
+				"held": schema.NewPropertySchema(top, nil, false, nil, nil, nil, nil, nil)})
+		},
+	}
+	for _, name := range sortedKeys(holders) {
+		hs := newSession(tree, ext)
+		var h linker
+		var vrWrong string
+		pi := sup.Guard(func() {
+			var order []*T
+			scopesPostOrder(tree, &order)
+			for _, sc := range order {
+				hs.w.buildScope(sc)
+			}
+			h = holders[name](hs.w.scopes[tree.Tag])
+			check := func(stage string) {
+				all := true
+				for _, g := range hs.treeRefTags {
+					if r, ok := hs.w.refs[g]; !ok || !r.ObjectReady() {
+						all = false
+					}
+				}
+				if (h.ValidateReferences() == nil) != all && vrWrong == "" {
+					vrWrong = fmt.Sprintf("%s: ValidateReferences()=nil is %v, every reference linked is %v", stage, !all, all)
+				}
+			}
+			h.ApplyNamespace(nil, schema.SelfNamespace)
+			check("after the self namespace")
+			for _, ns := range sortedKeys(nstab) {
+				h.ApplyNamespace(hs.extW[nstab[ns]].Objects(), ns)
+				check("after " + ns)
+				for _, g := range hs.extNS {
+					hs.w.scopes[g].ApplyNamespace(hs.extW[nstab[ns]].Objects(), ns)
+				}
+			}
+		})
+		res.Evals++
+		if pi != nil {
+			if isHarnessPanic(pi) {
+				res.HarnessErr = pi.Msg
+				return
+			}
+			res.add(false, map[string]any{"op": "apply_ns", "class": "panic", "frame": pi.Frame, "holder": name},
+				map[string]any{"panic": pi.Msg, "nstab": nstab})
+			continue
+		}
+		if vrWrong != "" {
+			res.add(false, map[string]any{"op": "validate_references", "class": "not_iff_all_linked", "holder": name},
+				map[string]any{"what": vrWrong, "nstab": nstab})
+		}
+		got := hs.w.observe(hs.refTags)
+		for _, g := range hs.refTags {
+			if got[g] == want[g] {
+				continue
+			}
+			class := "wrong_object"
+			if got[g] == "None" {
+				class = "not_linked"
+			}
+			st := hs.sites[g]
+			refns := "self"
+			if st.ref.NS != "" {
+				refns = "external"
+			}
+			res.add(false, map[string]any{"op": "apply_ns", "class": class, "refns": refns, "under": st.under, "holder": name},
+				map[string]any{"ref": g, "ref_ns": st.ref.NS, "ref_id": st.ref.ID, "through_scope": want[g], "through_holder": got[g], "nstab": nstab})
+		}
+	}
 }
 
 // rebuild: the same tree received as a description. SelfSerialize -> UnserializeScope applies the
